@@ -201,6 +201,9 @@ func (s *EncryptionSession) initFinalize(reverse bool, keyContext string) error 
 
 // InitCleanup cleans up the exchange keys after the initial setup.
 func (s *EncryptionSession) InitCleanup() {
+	s.lock.Lock()
+	defer s.lock.Unlock()
+
 	s.kxRemotePublic = nil
 	s.kxRouterPrivate = nil
 }
